@@ -200,6 +200,10 @@ def integrate_spin(expr: Expr, target_idx: str, target_spin: str) -> Expr:
                 break
         if term_vanishes:
             continue
+        # no object of the term has known allowed spin blocks
+        # -> start from the empty assignment: all indices are assigned below
+        if not term_spin_idx_maps:
+            combinations.append({"a": set(), "b": set()})
 
         # - iterate over the unique combinations, replace the spin orbitals
         #   by the corresponding spatial orbitals (assign a spin to the
@@ -230,7 +234,10 @@ def integrate_spin(expr: Expr, target_idx: str, target_spin: str) -> Expr:
                     # contracted indices are assigned to either a or b spin
                     variants = []
                     for var in product("ab", repeat=len(missing_contracted)):
-                        complete_variant = idx_map.copy()
+                        # copy the sets: the variants must not share them
+                        complete_variant = {
+                            sp: indices.copy() for sp, indices in idx_map.items()
+                        }
                         for spin, idx in zip(var, missing_contracted):
                             complete_variant[spin].add(idx)
                         variants.append(complete_variant)
